@@ -638,28 +638,41 @@ def wl_C16(tier, rng):
         n = rng.randint(1, 5)
         vals = {}
         ops = [gen.new_line(0, cls, "-", n)]
+        und = cls in ("umulti", "uw")
+
+        def keyof(i, j):
+            return (min(i, j), max(i, j)) if und else (i, j)
         for _ in range(rng.randint(1, 14)):
             i, j = gen.pick_pair(rng, n)
-            key = (min(i, j), max(i, j)) if cls in ("umulti", "uw") else (i, j)
+            key = keyof(i, j)
+            if cls == "dmulti" and rng.random() < 0.15:
+                # forced reciprocal insertion: both orientations, one common multiplicity
+                k2 = keyof(j, i)
+                v = vals.get(key, vals.get(k2))
+                if v is None:
+                    v = rng.choice([1, 1, 2, 3])
+                if vals.get(key, v) == v and vals.get(k2, v) == v:
+                    force = 1 if (key in vals or k2 in vals or rng.random() < 0.6) else 0
+                    vals.setdefault(key, v)
+                    vals.setdefault(k2, v)
+                    ops.append(f"addReciprocalEdge 0 {i} {j} {force}" if v == 1 and rng.random() < 0.5
+                               else f"addReciprocalMultiedge 0 {i} {j} {v} {force}")
+                    continue
             first = key not in vals
             if first:
-                vals[key] = rng.randint(1, 4) if cls in MULTI else rng.randint(-8, 16)
+                vals[key] = rng.choice([1, 1, 1, 2, 3, 4]) if cls in MULTI else rng.randint(-8, 16)
             # a repeated pair is always forced (an unforced repeat would merge multiplicities,
             # which leaves the property's "all copies carry the same value" premise)
             force = 1 if (not first or rng.random() < 0.6) else 0
-            ops.append(add_op(cls, 0, i, j, vals[key], force=force))
+            if cls in MULTI and vals[key] == 1 and rng.random() < 0.5:
+                ops.append(f"addEdge 0 {i} {j} {force}")      # the single-edge entry point: addMultiedge(i, j, 1, force)
+            else:
+                ops.append(add_op(cls, 0, i, j, vals[key], force=force))
         ops.append("removeDuplicateEdges 0")
         # the same calls without force, each distinct pair once with the common value (DESIGN C16 note)
         ops.append(gen.new_line(1, cls, "-", n))
-        seen = set()
-        for l in ops[1:-2]:
-            t = l.split()
-            key = (int(t[2]), int(t[3]))
-            key2 = (min(key), max(key)) if cls in ("umulti", "uw") else key
-            if key2 in seen:
-                continue
-            seen.add(key2)
-            ops.append(add_op(cls, 1, t[2], t[3], vals[key2], force=0))
+        for (a, b), v in vals.items():
+            ops.append(add_op(cls, 1, a, b, v, force=0))
         ops += ["eq 0 1", "eq 1 0"]
         yield ({"cls": cls, "kind": "-", "n": n, "len": len(ops)}, ops)
 
